@@ -24,7 +24,7 @@ A, B = LocalStation(1), LocalStation(2)
 
 external("bacpypes.iocb:IOCB.trigger", "iocb_done", method=False)
 external("bacpypes.core:deferred", "deferred", method=False)
-external("bacpypes.comm:ApplicationServiceElement.request", "to_stack")
+external("bacpypes.comm:ApplicationServiceElement.request", "ase_request")
 
 class GhostEvent(object):
     """stand-in for threading.Event in IOQueue.notempty (same four methods; copyable)"""
@@ -144,7 +144,7 @@ def submit_ok(app, iocb, had_queue, old_active, old_pending, sent):
         return False
     if had_queue and q is not app.ghost_queue:
         return False                    # an existing queue is never replaced: what it holds stays reachable
-    sent = sent + trace('to_stack')
+    sent = sent + trace('ase_request')
     if had_queue and old_active is not None:
         # busy: queued behind what was already waiting, nothing sent yet
         return (q.active_iocb is old_active and pending(q) == old_pending + [iocb] and iocb.ioState == IO_PENDING and len(sent) == 0
